@@ -114,6 +114,47 @@ func (c *Ctx) generator(gs genSpec) {
 		}
 		return out
 	}
+	// `if err := check(n, rooted); err != nil { return nil, err }`: a validation helper that only returns
+	// an error; the condition under which it does (its error returns, parameters replaced by the
+	// arguments) is the guard
+	validator := map[types.Object]*bexpr{}
+	ast.Inspect(fi.Decl.Body, func(m ast.Node) bool {
+		as, ok := m.(*ast.AssignStmt)
+		if !ok || len(as.Lhs) != 1 || len(as.Rhs) != 1 {
+			return true
+		}
+		call, ok := unparen(as.Rhs[0]).(*ast.CallExpr)
+		if !ok {
+			return true
+		}
+		ev := identObj(info, as.Lhs[0])
+		if ev == nil || !isErrorType(ev.Type()) {
+			return true
+		}
+		if b := c.errCondOfCall(info, call, o); b != nil {
+			validator[ev] = b
+		}
+		return true
+	})
+	guardBexpr := func(conds []cond) *bexpr {
+		parts := []*bexpr{c.condsToBexpr(info, sizeConds(conds), o)}
+		for _, cd := range flattenConds(conds) {
+			if cd.Expr == nil {
+				continue
+			}
+			if to, nonNil, ok := nilTest(info, cd.Expr); ok {
+				if b, isV := validator[to]; isV {
+					// cond says err != nil (nonNil) possibly negated
+					if nonNil != cd.Neg {
+						parts = append(parts, b)
+					} else {
+						parts = append(parts, bNot(b))
+					}
+				}
+			}
+		}
+		return bAnd(parts...)
+	}
 	// error returns guarded by a test on the size only
 	var alts []*bexpr
 	nret := 0
@@ -131,6 +172,19 @@ func (c *Ctx) generator(gs genSpec) {
 			if is, ok := s.(*ast.IfStmt); ok {
 				encl = is
 			}
+		}
+		viaValidator := false
+		if encl != nil {
+			if to, nonNil, ok := nilTest(info, encl.Cond); ok && nonNil && validator[to] != nil {
+				viaValidator = true
+			}
+		}
+		if viaValidator {
+			if conds, okc := c.pathConds(info, fi.Decl.Body, ret, false); okc {
+				nret++
+				alts = append(alts, guardBexpr(conds))
+			}
+			return true
 		}
 		if encl == nil || !onlySizeTerms(encl.Cond) {
 			return true
@@ -193,7 +247,7 @@ func (c *Ctx) generator(gs genSpec) {
 			continue
 		}
 		nb++
-		pc := c.condsToBexpr(info, sizeConds(conds), o)
+		pc := guardBexpr(conds)
 		imp, wit, _, err := gfImplies(pc, bNot(spec))
 		if err != nil {
 			c.Undecided("GF", fmt.Sprintf("%s/guard-dominates/%s#%d", name, fn.Name(), nb), call.Pos(), err.Error())
@@ -231,17 +285,72 @@ func (c *Ctx) generator(gs genSpec) {
 			}
 		}
 		if !found {
+			// a finishing helper given the rootedness flag does it
+			for _, call := range callsIn(fi.Decl.Body, false) {
+				g := calleeOf(info, call)
+				if g == nil || g.Exported() || g.Pkg() != fi.Obj.Pkg() {
+					continue
+				}
+				gi := c.FuncOfObj(g)
+				if gi == nil || gi.Decl.Body == nil {
+					continue
+				}
+				ri := -1
+				for i, a := range call.Args {
+					if identObj(info, a) == rObj {
+						ri = i
+					}
+				}
+				if ri < 0 {
+					continue
+				}
+				ginfo := gi.Pkg.TypesInfo
+				rp := paramObj(ginfo, gi.Decl, ri)
+				o2 := &canonOpts{subst: map[types.Object]string{rp: "$R"}}
+				for _, c2 := range callsIn(gi.Decl.Body, false) {
+					if !isRepoFunc(calleeOf(ginfo, c2), "tree", "Tree", gs.unroot) {
+						continue
+					}
+					found = true
+					conds, okc := c.pathConds(ginfo, gi.Decl.Body, c2, false)
+					var rel []cond
+					for _, cd := range conds {
+						if cd.Expr != nil && mentions(ginfo, cd.Expr, rp) {
+							rel = append(rel, cd)
+						}
+					}
+					pc := c.condsToBexpr(ginfo, rel, o2)
+					eq, wit, _, err := gfEquiv(pc, bNot(bAtom("$R")))
+					if !okc || err != nil {
+						c.Undecided("GF", name+"/"+gs.unroot+"-iff-unrooted", call.Pos(), "guard shape not understood")
+					} else {
+						c.Check(eq, "GF", name+"/"+gs.unroot+"-iff-unrooted", call.Pos(), gs.unroot+" iff !rooted (in "+g.Name()+")", gs.unroot+" is called under "+pc.String()+", must be exactly when an unrooted tree is requested: "+wit).Clause = "the requested rootedness"
+					}
+				}
+			}
+		}
+		if !found {
 			c.Violation("GF", name+"/"+gs.unroot+"-iff-unrooted", fi.Decl.Pos(), "an unrooted tree is never produced: no call of "+gs.unroot).Clause = "the requested rootedness"
 		}
 	}
 	// ReinitIndexes on every success return
 	if gs.reindex {
 		fg := c.cfgOf(info, fi.Decl.Body)
-		res := mustPassFromEntryEx(fg, func(n ast.Node) bool {
-			return containsCall(info, n, func(cl *ast.CallExpr, fn *types.Func) bool { return isRepoFunc(fn, "tree", "Tree", "ReinitIndexes") })
-		}, func(ret *ast.ReturnStmt) bool {
+		passes := func(n ast.Node) bool {
+			return containsCall(info, n, func(cl *ast.CallExpr, fn *types.Func) bool {
+				if isRepoFunc(fn, "tree", "Tree", "ReinitIndexes") {
+					return true
+				}
+				// an unexported finishing helper of the package that always ends with it
+				return fn != nil && !fn.Exported() && fn.Pkg() == fi.Obj.Pkg() && c.reaches(fn, func(h *types.Func) bool { return isRepoFunc(h, "tree", "Tree", "ReinitIndexes") }, 2, map[*types.Func]bool{})
+			})
+		}
+		res := mustPassFromEntryEx(fg, passes, func(ret *ast.ReturnStmt) bool {
 			if ret == nil || len(ret.Results) == 0 {
 				return true
+			}
+			if passes(ret) {
+				return false // `return finish(t, rooted)`: the call sits in the return itself
 			}
 			return !isNilIdent(info, ret.Results[0]) // a return that hands out a tree
 		})
@@ -584,4 +693,58 @@ func (c *Ctx) caterpillarSkeleton() {
 		}
 	}
 	c.Check(good, "SHAPE", "tree.RandomCaterpillarBinaryTree/graft-on-last", graft.Pos(), "each new tip is grafted on the branch of the previously added tip", "the caterpillar does not graft each new tip on the branch of the tip added just before (graft on "+edgeKey+"): the shape is not a caterpillar").Clause = clause
+}
+
+// errCondOfCall: call is g(args) with g an unexported function of the repository whose only result is
+// an error. Returns the condition under which g returns a non-nil error, as a formula over the
+// canonical texts of the arguments (nil when g is not of that shape).
+func (c *Ctx) errCondOfCall(info *types.Info, call *ast.CallExpr, o *canonOpts) *bexpr {
+	g := calleeOf(info, call)
+	if g == nil || g.Exported() || !inRepo(g) {
+		return nil
+	}
+	sig := g.Type().(*types.Signature)
+	if sig.Results().Len() != 1 || !isErrorType(sig.Results().At(0).Type()) || sig.Variadic() || sig.Params().Len() != len(call.Args) {
+		return nil
+	}
+	gi := c.FuncOfObj(g)
+	if gi == nil || gi.Decl.Body == nil {
+		return nil
+	}
+	ginfo := gi.Pkg.TypesInfo
+	o2 := &canonOpts{subst: map[types.Object]string{}, merged: true}
+	for i := range call.Args {
+		if p := paramObj(ginfo, gi.Decl, i); p != nil {
+			o2.subst[p] = c.canon(info, call.Args[i], o)
+		}
+	}
+	var alts []*bexpr
+	ok := true
+	ast.Inspect(gi.Decl.Body, func(m ast.Node) bool {
+		if _, isLit := m.(*ast.FuncLit); isLit {
+			return false
+		}
+		ret, isRet := m.(*ast.ReturnStmt)
+		if !isRet {
+			return true
+		}
+		if len(ret.Results) != 1 {
+			ok = false
+			return true
+		}
+		if isNilIdent(ginfo, ret.Results[0]) {
+			return true
+		}
+		conds, okc := c.pathConds(ginfo, gi.Decl.Body, ret, false)
+		if !okc {
+			ok = false
+			return true
+		}
+		alts = append(alts, c.condsToBexpr(ginfo, conds, o2))
+		return true
+	})
+	if !ok || len(alts) == 0 {
+		return nil
+	}
+	return bOr(alts...)
 }
